@@ -23,6 +23,7 @@ type loopInfo struct {
 	// snapshot at header (after havoc) for decreases
 	decAt []Term
 	havocFams []string
+	ghosts map[string]Val
 }
 
 type edge struct {
@@ -421,6 +422,10 @@ func (g *Gen) loopHead(li *loopInfo) {
 	for _, inv := range spec.Inv {
 		g.assumeReach(g.evalBool(inv.Expr, cx, inv))
 	}
+	li.ghosts = map[string]Val{}
+	for _, gd := range spec.Ghost {
+		li.ghosts[gd.Name] = g.evalSpec(gd.Expr, cx)
+	}
 	li.decAt = nil
 	for _, d := range spec.Dec {
 		v := g.evalSpec(d.Expr, cx)
@@ -454,6 +459,9 @@ func (g *Gen) backEdge(li *loopInfo, cond Term) {
 		}
 	}
 	cx := g.ctxHere()
+	for k, v := range li.ghosts {
+		cx.vars[k] = v
+	}
 	for _, lm := range spec.Lemma {
 		g.obligeClause(fmt.Sprintf("lemma[%d]", li.ordinal), g.evalBool(lm.Expr, cx, lm), lm)
 	}
